@@ -1,9 +1,9 @@
 SPECIFICATION Spec
 CONSTANTS
-  Cats1 = {1, 2, 3, 4, 5, 6, 7, 8, 9, 10, 11, 12, 13, 14, 15, 16, 17, 18, 19, 20, 21, 22}
-  MaxOver1 = 4
-  Cats2 = {1, 4, 10, 12, 13}
-  MaxOver2 = 3
+  Cats1 = {8, 12, 13}
+  MaxOver1 = 2
+  Cats2 = {12}
+  MaxOver2 = 1
   Time = {1, 2}
   Locales = {"C", "xx_XX"}
   EnvSizes = {0, 1}
@@ -15,9 +15,9 @@ CONSTANTS
   ZeroMeansUnset = FALSE
   PrevFiles = {"none", "same", "longer", "shorter", "symlink"}
   Truncates = TRUE
-  InputVariants = {"plain"}
-  TZs = {"UTC0"}
-  AslrBases = {1}
+  InputVariants = {"plain", "dated", "oddslot"}
+  TZs = {"UTC0", "XXX-13:30"}
+  AslrBases = {1, 2}
   DateMacros = "undefined"
   PrintsPointer = FALSE
   TieBreak = "signature"
